@@ -147,6 +147,13 @@ func bindingType(p string, t Type, lookup *TypeLookup) (Type, error) {
 	case *TypedMapType:
 		r, err := bindingType(p, t.Elem, lookup)
 		if r != nil {
+			if r.TypeId().MapDim != 0 {
+				// map<map<...>> is not a representable type.
+				return r, &bindingError{
+					Msg: "projection through " + t.TypeId().str() +
+						" generates a nested map of " + r.TypeId().str(),
+				}
+			}
 			return lookup.GetMap(r), err
 		}
 		return r, err
